@@ -137,15 +137,18 @@ def lean_build(scr):
         ext_log = p.stdout.decode(errors="replace")
         if p.returncode != 0:
             return dict(ok=False, extract_ok=False, log=ext_log, failed=["tools/extract.py"], wall=time.time() - t0)
-        p = subprocess.run(["lake", "build"], cwd=LEAN, stdout=subprocess.PIPE, stderr=subprocess.STDOUT)
-        out = p.stdout.decode(errors="replace")
-        failed = re.findall(r"^- (\S+)$", out, flags=re.M)
-        # keep a private copy of the driver so that later rebuilds by other checks do not disturb this run
+        # 1. the model and its driver (what K and S run); 2. the whole library, i.e. every theorem (P)
+        p1 = subprocess.run(["lake", "build", "eavdrv"], cwd=LEAN, stdout=subprocess.PIPE, stderr=subprocess.STDOUT)
+        out1 = p1.stdout.decode(errors="replace")
         drv = os.path.join(scr.dir, "eavdrv")
         src = os.path.join(LEAN, ".lake/build/bin/eavdrv")
-        if p.returncode == 0 and os.path.exists(src):
+        if p1.returncode == 0 and os.path.exists(src):
             shutil.copy2(src, drv)
-        return dict(ok=p.returncode == 0, extract_ok=True, log=ext_log + out, failed=failed, driver=drv, wall=time.time() - t0)
+        p = subprocess.run(["lake", "build", "Eav"], cwd=LEAN, stdout=subprocess.PIPE, stderr=subprocess.STDOUT)
+        out = p.stdout.decode(errors="replace")
+        failed = re.findall(r"^- (\S+)$", out1 + out, flags=re.M)
+        return dict(ok=p.returncode == 0 and p1.returncode == 0, driver_ok=p1.returncode == 0, extract_ok=True,
+                    log=ext_log + (out1 if p1.returncode != 0 else "") + out, failed=failed, driver=drv, wall=time.time() - t0)
 
 
 def print_axioms(theorems):
